@@ -75,7 +75,9 @@ Definition show_res (r : res (list Z)) : list Z :=
 Definition op_cells (input : list Z) : res (list Z) :=
   do cb <- cellbuffer_from input;
   Ok (zs "cells " ++ show_span (cb_cells cb) ++ zs " | esc " ++ show_celltexts (cb_escaped cb)
-      ++ zs " | css " ++ join [59] (map (fun '(n, d) => dots n ++ [61] ++ dots d) (cb_css cb))).
+      ++ zs " | css " ++ join [59] (map (fun '(n, d) => dots n ++ [61] ++ dots d) (cb_css cb))
+      ++ zs " | L " ++ dots (legend_css (cb_css cb))
+      ++ zs " | B " ++ (let br := cells_max (cb_cells cb) in commas [print_z (cx br); print_z (cy br)])).
 Definition op_spans (input : list Z) : res (list Z) :=
   do cb <- cellbuffer_from input;
   do spans <- spans_of_cells (cb_cells cb);
@@ -130,6 +132,28 @@ Definition op_svg (entry : Z) (st : settings) (w h : Q) (input : list Z) : res (
   | 3 => to_svg_with_settings input st
   | _ => to_svg_with_override_size input st w h
   end.
+
+(** ** stage-local operations: the implementation's own intermediate result goes in, so that a
+    divergence is attributed to the stage in which it arises *)
+(** stage 2-5: cell map -> accepted fragments and contact groups *)
+Definition op_endorse (ws : bool) (cells : list (cell * Z)) : list Z :=
+  show_res
+    (do r <- endorse_cells cells;
+     let '(acc, groups) := r in
+     Ok (zs "A " ++ show_fragspans ws acc ++ flat_map (fun g => zs " | G " ++ show_fragspans ws g) groups)).
+(** stage 6: fragments, groups, quoted texts, legend CSS and bottom-right cell -> document *)
+Definition op_emit (entry : Z) (st : settings) (w h : Q) (acc : list fragment) (groups : list (list fragment))
+    (esc : list (cell * list Z)) (legend : list Z) (br : cell) : list Z :=
+  let frags := acc ++ map (fun e => fs_frag (escaped_fragspan e)) esc in
+  show_res
+    (match entry with
+     | 4 => do d <- doc_emit frags groups legend st (Qred w) (Qred h); Ok (render false 0 d)
+     | 3 => let '(cw, chh) := canvas_of st br in do d <- doc_emit frags groups legend st cw chh; Ok (render false 0 d)
+     | 2 => let '(cw, chh) := canvas_of default_settings br in
+            do d <- doc_emit frags groups legend default_settings cw chh; Ok (render true 0 d)
+     | _ => let '(cw, chh) := canvas_of default_settings br in
+            do d <- doc_emit frags groups legend default_settings cw chh; Ok (render false 0 d)
+     end).
 
 (** ops: 10 cells, 11 spans, 12 merged, 13 mergedspan, 14 contacts, 15 frags, 16 fragspans, 17 behav *)
 Definition run_op (op : Z) (st : settings) (w h : Q) (input : list Z) : list Z :=
